@@ -94,7 +94,7 @@ class C08(CheckBase):
                    'either way (housekeeping grace)']
     expected_probes = ['subscribe', 'renew', 'getstatus', 'unsubscribe', 'unknown_id', 'expiry_crossed', 'commits',
                        'expected_deliveries', 'forbidden_checked', 'stop_end', 'clock_jump',
-                       'unsubscribe_during_delivery']
+                       'unsubscribe_during_delivery', 'commit_during_stop']
     max_steps = 6_000_000
     max_virtual = 100000.0
 
@@ -156,8 +156,19 @@ class C08(CheckBase):
             elif k == 'clock_jump':
                 op['dt'] = rng.choice([-3600.0, -10.0, 5.0, 3600.0, 86400.0])
             ops.append(op)
-        return {'sched': draw_sched_config(rng), 'world': cfg, 'nsub': nsub, 'ops': ops,
-                'stop': {'send_end': rng.random() < 0.75}}
+        stop = {'send_end': rng.random() < 0.75}
+        if rng.random() < 0.4:
+            # the application commits a transaction while stop_all() is ending the subscriptions (slow peers)
+            tx = g.gen_op(kinds=['metric', 'alert', 'component', 'operational', 'context', 'rt'])
+            if tx is not None:
+                # tx_delay (x slow_d) < 0: the commit starts first and its sending thread is stalled right after it took
+                # the list of subscribers, stop_all() overtakes it
+                stop.update({'tx': tx, 'slow_d': rng.choice([0.15, 0.4]), 'tx_delay': rng.choice([-1, -1, 0.5, 1.5, 2.5])})
+                # two fresh subscriptions for everything, so that live subscribers exist when the provider stops
+                for j in range(2):
+                    ops.append({'id': n + j, 'k': 'subscribe', 'owner': j, 'actions': sorted(actions), 'expires': 3600,
+                                'end_to': rng.choice(['none', 'own']), 'accept': None, 'ref': False})
+        return {'sched': draw_sched_config(rng), 'world': cfg, 'nsub': nsub, 'ops': ops, 'stop': stop}
 
     # ------------------------------------------------------------------
     def body(self, ctx):
@@ -294,7 +305,10 @@ class C08(CheckBase):
                 do_tx(op)
             elif k == 'tx_unsub' and len([x for x in subs if x.accepted]) >= 2:
                 sub = subs[op['sub'] % len(subs)]
-                if not sub.accepted or sub.unsub_resp is not None:
+                shares_endpoint_with_faulty = any(o.owner == sub.owner and modes.get(o.k, ['ok'])[0] != 'ok' for o in subs)
+                if not sub.accepted or sub.unsub_resp is not None or shares_endpoint_with_faulty:
+                    # (a slow / stalled subscription behind the same endpoint would hold the pooled connection: the send
+                    # to this subscription could then be decided before and written long after the Unsubscribe)
                     do_tx(op)
                     continue
                 ctx.probe('unsubscribe_during_delivery')
@@ -411,7 +425,29 @@ class C08(CheckBase):
             audit(f'after op {op["id"]} {k}')
         # ---------- stop
         t_stop0 = s.now
+        tx_thread = None
+        if plan['stop'].get('tx') is not None and plan['stop']['send_end']:
+            ctx.probe('commit_during_stop')
+            for sb in subs:
+                if modes.get(sb.k, ['ok'])[0] == 'ok':
+                    modes[sb.k] = ['slow', plan['stop']['slow_d']]
+
+            early = plan['stop']['tx_delay'] < 0
+
+            def late_tx():
+                if not early:
+                    s.sleep(plan['stop']['tx_delay'] * plan['stop']['slow_d'])
+                do_tx(plan['stop'])
+            if early:
+                for m_ in prov._subscriptions_managers.values():
+                    s.stall_after(m_._subscriptions.lock, 0.8, (0.3, 1.5))
+            tx_thread = threading.Thread(target=late_tx, name='tx-during-stop')
+            tx_thread.start()
+            if early:
+                s.sleep(0.002)
         finished, exc = w.stop_provider_guarded(plan['stop']['send_end'], max_virtual=plan['world']['max_subscription_duration'] * 8 + 120)
+        if tx_thread is not None and finished:
+            tx_thread.join()
         if not finished:
             ctx.violation('C08.end', 'stop_all-does-not-return', 'SdcProvider.stop_all() did not return (live subscriptions '
                                                                  'never get their SubscriptionEnd):\n' + s.stacks(limit=10, only_forever=True)[:6000])
@@ -489,6 +525,7 @@ class C08(CheckBase):
                             except ValueError:
                                 v = None
                     per_sub[kk].append((rec, v))
+        commit_start = {vv: t0 for t0, _t1, versions, _st in commits for vv in versions}
         for sb in subs:
             if not sb.accepted:
                 if per_sub[sb.k]:
@@ -505,6 +542,23 @@ class C08(CheckBase):
                                   f'subscription {sb.k}: the provider put {rec.action} on the wire at t={rec.sent_t:.3f}, '
                                   f'{rec.sent_t - sb.unsub_answered[0]:.3f}s after it had answered the Unsubscribe '
                                   f'(t={sb.unsub_answered[0]:.3f})')
+                # a notification of a commit that STARTED after the SubscriptionEnd exchange of this subscription was
+                # complete (the decision to send it was certainly taken after the subscription had ended)
+                end_done = min((e[1].t_done for e in ends[sb.k] if e[1].t_done is not None), default=None)
+                c_start = commit_start.get(v)
+                if end_done is not None and rec.sent_t > end_done + 0.005:
+                    # (a send that was decided before the end message waits at most for the end exchange on the shared
+                    # connection and goes out at the very instant that exchange is complete; threads are only stalled
+                    # where they release the subscription table lock, never between the validity check and the write)
+                    ctx.violation('C08.iff', 'sent-to-dead:after-subscription-end',
+                                  f'subscription {sb.k}: the provider put {rec.action} on the wire at t={rec.sent_t:.3f}, '
+                                  f'{rec.sent_t - end_done:.3f}s after the SubscriptionEnd of this subscription had been '
+                                  f'delivered and answered (t={end_done:.3f})')
+                if end_done is not None and c_start is not None and c_start > end_done + 0.01:
+                    ctx.violation('C08.iff', 'sent-to-dead:after-subscription-end',
+                                  f'subscription {sb.k}: received {rec.action} of commit {v}, which started at '
+                                  f't={c_start:.3f}, {c_start - end_done:.3f}s after the SubscriptionEnd of this '
+                                  f'subscription had been delivered and answered (t={end_done:.3f})')
                 if rec.t > t_stop1 + 0.2:
                     ctx.violation('C08.end', 'notification-after-stop', f'subscription {sb.k} received {rec.action} after '
                                                                        f'stop_all')
